@@ -1,7 +1,7 @@
 // Native replay for C07: the real evaluators mp::ComputeValue(<constraint>, x) of include/mp/flat/constr_eval.h and the real
 // mp::Violation::Check, compared with the mathematical value of the operator on a grid of points (the verifier's
 // counterexamples are ghost states of loop contracts, not concrete points: this searches the neighbourhood natively).
-// usage: c07_replay <Max|Min|Abs|And|Or|Not|Div|IfThen|Implication|Count|AllDiff|NumberofConst|NumberofVar|Check|all>
+// usage: c07_replay <Max|Min|Abs|And|Or|Not|Div|IfThen|Implication|Count|AllDiff|NumberofConst|NumberofVar|Check|Indicator|Algebraic|Functional|all>
 //   exit 10 = an evaluator disagrees with the mathematical value
 #include <cstdio>
 #include <cstring>
@@ -13,6 +13,7 @@
 #include "mp/flat/constr_std.h"
 #include "mp/flat/constr_algebraic.h"
 #include "mp/flat/constr_eval.h"
+#include "mp/flat/constr_general.h"
 
 struct X {
   std::vector<double> v; std::vector<bool> isint; double tol = 1e-6;
@@ -71,10 +72,40 @@ static void t_check() {
     if (got != want) report("Violation::Check (viol, ref, epsabs, epsrel)", {viol, ref, ea, er}, got, want);
   }
 }
+// indicator constraints: the implied constraint counts exactly when the binary's nearest integer is the indicator value
+static void t_indicator() {
+  const double B[] = {0, 1, 1e-9, 1 - 1e-9, 3e-7, 1 - 3e-7, -2e-8, 1 + 2e-8, 0.4, 0.6}, XV[] = {-2, 0, 2.999, 3, 3.001, 4, 10};
+  for (int bv = 0; bv < 2; ++bv) for (double b : B) for (double xv : XV) {
+    mp::IndicatorConstraintLinLE ic(0, bv, mp::LinConLE({{1.0}, {1}}, 3.0)); X x{{b, xv}};
+    bool got = ic.ComputeViolation(x).Check(1e-6, 1e-6).first, want = (std::round(b) == bv) && (xv - 3.0 > 1e-6);
+    if (got != want) report("Indicator (b, x1; implied x1 <= 3)", {b, xv, (double)bv}, got, want);
+  }
+}
+// algebraic constraints: lower / upper side, per comparison kind
+static void t_algebraic() {
+  const double BD[] = {-5, -1, 0, 0.999, 1, 1.001, 2, 3, 3.5}, R[] = {-1, 0, 1, 3};
+  for (double bd : BD) for (double r : R) {
+    X x{{bd}};
+    { mp::LinConLE c({{1.0}, {0}}, r); auto v = c.ComputeViolation(x); double want = bd - r; if (v.viol_ != want) report("LinConLE violation (body, rhs)", {bd, r}, v.viol_, want); }
+    { mp::LinConGE c({{1.0}, {0}}, r); auto v = c.ComputeViolation(x); double want = r - bd; if (v.viol_ != want) report("LinConGE violation (body, rhs)", {bd, r}, v.viol_, want); }
+    { mp::LinConEQ c({{1.0}, {0}}, r); auto v = c.ComputeViolation(x); double want = std::fabs(bd - r); if ((v.viol_ > 0 ? v.viol_ : 0) != want) report("LinConEQ violation (body, rhs)", {bd, r}, v.viol_, want); }
+    for (double u : R) if (u >= r) { mp::LinConRange c({{1.0}, {0}}, {r, u}); auto v = c.ComputeViolation(x); double want = r > bd ? r - bd : (bd > u ? bd - u : std::max(r - bd, bd - u));
+      if (v.viol_ != want) report("LinConRange violation (body, lb, ub)", {bd, r, u}, v.viol_, want); }
+  }
+}
+// functional constraints: result variable against the value, by context
+static void t_functional() {
+  const double RV[] = {-1, 0, 0.5, 1, 2, 3};
+  points(2, 2, [&](const std::vector<double> &p) { for (double r : RV) for (int ctx = 0; ctx < 3; ++ctx) {
+    mp::MaxConstraint c(2, {0, 1}); c.SetContext(ctx == 0 ? mp::Context::CTX_MIX : ctx == 1 ? mp::Context::CTX_POS : mp::Context::CTX_NEG);
+    std::vector<double> q = p; q.push_back(r); X x{q}; double f = std::max(p[0], p[1]);
+    double want = ctx == 0 ? std::fabs(r - f) : ctx == 1 ? r - f : f - r; double got = c.ComputeViolation(x).viol_;
+    if (got != want) report("Max with result variable (x0, x1, result, context)", {p[0], p[1], r, (double)ctx}, got, want); } });
+}
 int main(int argc, char **argv) {
   std::string w = argc > 1 ? argv[1] : "all";
   struct { const char *n; void (*f)(); } T[] = {{"Max", t_max}, {"Min", t_min}, {"Abs", t_abs}, {"And", t_and}, {"Or", t_or}, {"Not", t_not}, {"Div", t_div}, {"IfThen", t_ifthen},
-    {"Implication", t_impl}, {"Count", t_count}, {"AllDiff", t_alldiff}, {"NumberofConst", t_nofc}, {"NumberofVar", t_nofv}, {"Check", t_check}};
+    {"Implication", t_impl}, {"Count", t_count}, {"AllDiff", t_alldiff}, {"NumberofConst", t_nofc}, {"NumberofVar", t_nofv}, {"Check", t_check}, {"Indicator", t_indicator}, {"Algebraic", t_algebraic}, {"Functional", t_functional}};
   int ran = 0;
   for (auto &t : T) if (w == "all" || w == t.n) { t.f(); ++ran; }
   if (!ran) { printf("unknown evaluator %s\n", w.c_str()); return 2; }
